@@ -1,7 +1,7 @@
 //! C02: Unix timestamps <-> UTC date-times (DateTime<Utc>, NaiveDateTime wrappers, TimeZone wrappers,
 //! SystemTime conversions).  A DateTime<Utc> result is encoded as its naive UTC reading.
 use crate::val::*;
-use chrono::{DateTime, FixedOffset, NaiveDateTime, TimeZone, Utc};
+use chrono::{DateTime, FixedOffset, NaiveDate, NaiveDateTime, NaiveTime, TimeZone, Utc};
 use std::time::{Duration, SystemTime, UNIX_EPOCH};
 
 fn acc(d: DateTime<Utc>) -> Val {
@@ -110,6 +110,15 @@ pub fn dispatch(op: &str, a: &[Val]) -> Option<Val> {
                 enc_dt(&DateTime::<Utc>::MIN_UTC), enc_dt(&DateTime::<Utc>::MAX_UTC),
                 enc_ndt(NaiveDateTime::MIN), enc_ndt(NaiveDateTime::MAX),
                 vint(DateTime::<Utc>::MIN_UTC.timestamp()), vint(DateTime::<Utc>::MAX_UTC.timestamp()),
+            ]))
+        })(),
+        // the Default impls of the five value types
+        "ts.defaults" => (|| {
+            if !a.is_empty() { return None; }
+            let (u, f) = (DateTime::<Utc>::default(), DateTime::<FixedOffset>::default());
+            Some(vtup(vec![
+                enc_date(NaiveDate::default()), enc_time(NaiveTime::default()), enc_ndt(NaiveDateTime::default()),
+                enc_dt(&u), enc_dt(&f), vint(u.timestamp()), vint(f.timestamp()),
             ]))
         })(),
         _ => return None,
